@@ -75,11 +75,11 @@ const H: Tol = Tol { tol: 16.0, scale: 360.0, hue: true, chroma: None };
 #[allow(non_snake_case)]
 const fn Hc(chroma: usize) -> Tol { Tol { tol: 16.0, scale: 360.0, hue: true, chroma: Some(chroma) } }
 
-fn cmp1<T: Fl>(a: T, b: T, t: &Tol) -> (bool, f64) {
+pub fn cmp1<T: Fl>(a: T, b: T, t: &Tol) -> (bool, f64) {
     let c = Cmp { tol: t.tol, scale: [t.scale; 4], hue: if t.hue { Some(0) } else { None }, chroma: None };
     lane_cmp(a, b, &c, 0)
 }
-fn dist<T: Fl>(a: T, b: T, t: &Tol) -> f64 { if t.hue { crate::c17::circ(a.to64(), b.to64()) } else { (a.to64() - b.to64()).abs() } }
+pub fn dist<T: Fl>(a: T, b: T, t: &Tol) -> f64 { if t.hue { crate::c17::circ(a.to64(), b.to64()) } else { (a.to64() - b.to64()).abs() } }
 
 pub struct Spec<'a> { pub name: &'a str, pub tols: &'a [Tol], /// tolerance of the margins handed over with the masks
     pub mask_tol: Tol, pub cond: bool, /// natural scale of the three input components (both colours)
@@ -231,6 +231,19 @@ macro_rules! more4 { ($out:expr, $pools:expr, $rng:expr, $ng:expr, $pool:expr, $
     let g = pair_groups($pool, pool, 2, $rng, $ng, $plo, $phi, $out);
     more_run::<f64, f64x2, 2>($out, &sp, "f64x2", &g, &|$a, $b, $p| $body, &|$a, $b, $p| $body);
     $out.count("cls:more-operations-driven");
+    // coverage audit (c17_more2.rs): every lane assignment of two (a, b, p) inputs on different branches / with a special value; own PRNG (a clone),
+    // so the random stream of the clauses above is unchanged.  Same tolerances, clause `...:more:pat:<operation>`.
+    { let mut prng = $rng.clone(); let th = $ng > 500; let pname = format!("pat:{}", $name);
+      let sp = Spec { name: &pname, tols, mask_tol: $mt, cond: $cond, in_scale: in_scale($pool) };
+      let g = crate::c17_more2::pattern_op_groups($pool, pool, 4, &mut prng, $plo, $phi, th, $out);
+      more_run::<f32, f32x4, 4>($out, &sp, "f32x4", &g, &|$a, $b, $p| $body, &|$a, $b, $p| $body);
+      more_run::<f64, f64x4, 4>($out, &sp, "f64x4", &g, &|$a, $b, $p| $body, &|$a, $b, $p| $body);
+      let g = crate::c17_more2::pattern_op_groups($pool, pool, 8, &mut prng, $plo, $phi, th, $out);
+      more_run::<f32, f32x8, 8>($out, &sp, "f32x8", &g, &|$a, $b, $p| $body, &|$a, $b, $p| $body);
+      let g = crate::c17_more2::pattern_op_groups($pool, pool, 2, &mut prng, $plo, $phi, th, $out);
+      more_run::<f64, f64x2, 2>($out, &sp, "f64x2", &g, &|$a, $b, $p| $body, &|$a, $b, $p| $body);
+      // f32 against f64 on the scalar types for this operation (c17.rs: conversion edges only)
+      crate::c17_more2::prec_op($out, &sp, &g, &|$a, $b, $p| $body, &|$a, $b, $p| $body); }
 }} }
 
 /// the five WCAG predicates with the margin each one compares (`$c` = the contrast they are derived from)
@@ -250,7 +263,7 @@ impl<X> NumAll for X where X: Copy + Real + Zero + One + MinMax + Powu + Trigono
 
 /// every operation of palette's numeric traits, written once for the scalar and the SIMD type.
 /// (a, b, c): any finite or infinite non-NaN values; lo <= hi; (u, v, w): u in [1e-3, 4], v in [-4 pi, 4 pi], w in [-1, 1]; e: an exponent in [0, 4]
-fn num_table<X: NumAll>(a: X, b: X, c: X, lo: X, hi: X, u: X, v: X, w: X, e: X, nu: u32, ni: i32) -> (Vec<(&'static str, X, Tol)>, Vec<(&'static str, X::Mask)>) {
+pub fn num_table<X: NumAll>(a: X, b: X, c: X, lo: X, hi: X, u: X, v: X, w: X, e: X, nu: u32, ni: i32) -> (Vec<(&'static str, X, Tol)>, Vec<(&'static str, X::Mask)>) {
     let (mn, mx) = a.min_max(b);
     let (mut c1, mut c2, mut c3) = (a, a, a); num::ClampAssign::clamp_assign(&mut c1, lo, hi); c2.clamp_min_assign(lo); c3.clamp_max_assign(hi);
     let (sn, cs) = v.sin_cos();
@@ -279,11 +292,23 @@ fn num_table<X: NumAll>(a: X, b: X, c: X, lo: X, hi: X, u: X, v: X, w: X, e: X, 
 }
 
 fn num_ops<T, V, const N: usize>(out: &mut Out, vtag: &str, rng: &mut Rng, n: usize)
+where T: Fl + NumAll + HasBoolMask<Mask = bool>, V: NumAll + HasBoolMask<Mask = V> + FromScalarArray<N, Scalar = T> + IntoScalarArray<N, Scalar = T> { num_ops_at::<T, V, N>(out, vtag, rng, n, "") }
+
+/// coverage audit (c17_more2.rs): operands (a, w, v, u, e) that replace ONE lane of the random operands - zero of either sign, subnormal, the smallest
+/// normal numbers, one, infinities, the thresholds of the piecewise formulas - so that every function of `num/wide.rs` that palette reaches through
+/// cbrt / sqrt / powf / recip / ln / atan2 sees each of them at every lane position next to generic lanes (same preconditions as `num_table`)
+pub const LANE_SPECIALS: [[f64; 5]; 18] = [
+    [0.0, 0.0, 0.0, 1.0, 2.4], [-0.0, -0.0, -0.0, 1.0, 1.0 / 2.4], [0.0, 0.0, 1.0, 1e-3, 0.0], [-0.0, 0.0, -1.0, 4.0, 1.0 / 3.0], [1e-40, 1e-40, 1e-40, 0.04045, 2.4], [-1e-40, -1e-40, -1e-40, 0.0031308, 1.0 / 2.4],
+    [1e-310, 1e-310, 1e-310, 216.0 / 24389.0, 3.0], [1.17549435e-38, 1.17549435e-38, 1.17549435e-38, 0.5, 0.5], [2.2250738585072014e-308, 2.2250738585072014e-308, -2.2250738585072014e-308, 2.0, 2.0],
+    [1.0, 1.0, std::f64::consts::PI, 1.0, 0.0], [-1.0, -1.0, -std::f64::consts::PI, 1.0, 4.0], [f64::INFINITY, 1.0, std::f64::consts::FRAC_PI_2, 4.0, 4.0], [f64::NEG_INFINITY, -1.0, -std::f64::consts::FRAC_PI_2, 1e-3, 4.0],
+    [0.04045, 0.04045, 0.0, 0.04045, 2.4], [216.0 / 24389.0, 0.008856451679035631, -0.0, 0.008856451679035631, 1.0 / 3.0], [8.0, 0.5, 1e-30, 0.2068965517241379, 3.0], [1e-30, 1e-30, -1e-30, 1.0, 0.42], [3.0e38, 0.0, 0.0, 1.0, 0.9]];
+
+pub fn num_ops_at<T, V, const N: usize>(out: &mut Out, vtag: &str, rng: &mut Rng, n: usize, tag: &str)
 where T: Fl + NumAll + HasBoolMask<Mask = bool>, V: NumAll + HasBoolMask<Mask = V> + FromScalarArray<N, Scalar = T> + IntoScalarArray<N, Scalar = T> {
     let specials = [0.0, -0.0, 1.0, -1.0, 0.5, -0.5, 1.5, 2.5, -2.5, 3.0, f64::INFINITY, f64::NEG_INFINITY, 1e-40, -1e-40, 1e-310, 1e-30, 3.0e38, -3.0e38, 1.0 + 1e-7, 1.0 + 2e-16, 180.0, -180.0, 360.0, 8388608.5, 4503599627370496.5, 0.49999997, 0.49999999999999994, 1.8, -1.8, 5.4, -5.4, 9.0, 3.6, -3.6, 7.2];
     let exps = [1.0 / 2.4, 2.4, 1.0 / 3.0, 3.0, 0.42, 1.0 / 0.42, 0.9, 0.73, 0.7, 0.275, 2.2, 1.0 / 2.2, 563.0 / 256.0, 1.8, 2.6, 0.45, 0.5, 1.0, 2.0, 0.0];
     let ones = if T::TAG == "f32" { 0xffff_ffffu64 } else { u64::MAX };
-    for _ in 0..n {
+    for it in 0..n {
         let g = |rng: &mut Rng| -> f64 { if rng.chance(0.4) { *rng.pick(&specials) } else if rng.chance(0.2) { rng.range(-1000.0, 1000.0) } else { rng.range(-2.0, 2.0) } };
         let a: [T; N] = core::array::from_fn(|_| T::of(g(rng)));
         // operand order / ties mixed across lanes
@@ -296,13 +321,16 @@ where T: Fl + NumAll + HasBoolMask<Mask = bool>, V: NumAll + HasBoolMask<Mask = 
         let w: [T; N] = core::array::from_fn(|_| T::of(if rng.chance(0.15) { *rng.pick(&[0.0, -0.0, 1.0, -1.0, 0.5, -0.5, 1e-30]) } else { rng.range(-1.0, 1.0) }));
         let e: [T; N] = core::array::from_fn(|_| T::of(if rng.chance(0.6) { *rng.pick(&exps) } else { rng.range(0.0, 4.0) }));
         let nu = rng.below(9) as u32; let ni = rng.below(15) as i32 - 7;
+        let (mut a, mut u, mut v, mut w, mut e) = (a, u, v, w, e);
+        if !tag.is_empty() { let (lane, s) = (it % N, LANE_SPECIALS[(it / N) % LANE_SPECIALS.len()]); a[lane] = T::of(s[0]); w[lane] = T::of(s[1]); v[lane] = T::of(s[2]); u[lane] = T::of(s[3]); e[lane] = T::of(s[4]); out.count("cls:num-special-lane-cases"); }
+        let (a, u, v, w, e) = (a, u, v, w, e);
         let r = catch_unwind(AssertUnwindSafe(|| {
             let so: Vec<_> = (0..N).map(|i| num_table::<T>(a[i], b[i], c[i], lo[i], hi[i], u[i], v[i], w[i], e[i], nu, ni)).collect();
             let (vv, vm) = num_table::<V>(V::from_array(a), V::from_array(b), V::from_array(c), V::from_array(lo), V::from_array(hi), V::from_array(u), V::from_array(v), V::from_array(w), V::from_array(e), nu, ni);
             let vv: Vec<[T; N]> = vv.into_iter().map(|(_, x, _)| x.into_array()).collect(); let vm: Vec<[T; N]> = vm.into_iter().map(|(_, m)| m.into_array()).collect();
             (so, vv, vm)
         }));
-        let (so, vv, vm) = match r { Ok(x) => x, Err(_) => { out.check(false, &format!("no-panic:num:{}", vtag), || format!("a {:?} b {:?} c {:?} lo {:?} hi {:?}", a, b, c, lo, hi)); continue; } };
+        let (so, vv, vm) = match r { Ok(x) => x, Err(_) => { out.check(false, &format!("no-panic:num{}:{}", tag, vtag), || format!("a {:?} b {:?} c {:?} lo {:?} hi {:?}", a, b, c, lo, hi)); continue; } };
         for i in 0..N {
             let (sv, sm) = &so[i];
             for (o, (name, x, t)) in sv.iter().enumerate() {
@@ -312,11 +340,11 @@ where T: Fl + NumAll + HasBoolMask<Mask = bool>, V: NumAll + HasBoolMask<Mask = 
                     // wide rounds half to even (the SSE conversion), `f32::round` half away from zero: see the level_note.  Not reachable from a colour operation.
                     out.count("cls:num-round-tie-lane(wide: half to even, scalar: half away from zero)"); continue; }
                 if good && d.is_finite() { out.maxi(&format!("lane-vs-scalar-eps:num:{}:{}", name, T::TAG), d); }
-                out.check(good, &format!("lane=scalar:num:{}:{}", name, vtag), || format!("lane {}: a {:?} b {:?} c {:?} lo {:?} hi {:?} u {:?} v {:?} w {:?} e {:?} nu {} ni {}: scalar {:?} simd lane {:?}", i, a[i], b[i], c[i], lo[i], hi[i], u[i], v[i], w[i], e[i], nu, ni, x, y));
+                out.check(good, &format!("lane=scalar:num{}:{}:{}", tag, name, vtag), || format!("lane {}: a {:?} b {:?} c {:?} lo {:?} hi {:?} u {:?} v {:?} w {:?} e {:?} nu {} ni {}: scalar {:?} simd lane {:?}", i, a[i], b[i], c[i], lo[i], hi[i], u[i], v[i], w[i], e[i], nu, ni, x, y));
             }
             for (o, (name, want)) in sm.iter().enumerate() {
                 let bits = vm[o][i].bits64();
-                out.check((bits == ones || bits == 0) && (bits == ones) == *want, &format!("mask-lane=scalar:num:{}:{}", name, vtag), || format!("lane {}: a {:?} b {:?} v {:?} w {:?} u {:?}: scalar {} mask bits {:x}", i, a[i], b[i], v[i], w[i], u[i], want, bits));
+                out.check((bits == ones || bits == 0) && (bits == ones) == *want, &format!("mask-lane=scalar:num{}:{}:{}", tag, name, vtag), || format!("lane {}: a {:?} b {:?} v {:?} w {:?} u {:?}: scalar {} mask bits {:x}", i, a[i], b[i], v[i], w[i], u[i], want, bits));
             }
         }
     }
@@ -667,4 +695,72 @@ pub fn run_more(out: &mut Out, rng: &mut Rng, thorough: bool, ng: usize, pools: 
     let nn = if thorough { 100_000 } else { 3_000 };
     num_ops::<f32, f32x4, 4>(out, "f32x4", rng, nn); num_ops::<f32, f32x8, 8>(out, "f32x8", rng, nn);
     num_ops::<f64, f64x2, 2>(out, "f64x2", rng, nn); num_ops::<f64, f64x4, 4>(out, "f64x4", rng, nn);
+}
+
+// ------------------------------------------------------------------------------------------------------------------
+// coverage audit (AUDIT_C17.md): forms inside C17's quantifier that run their own impl blocks and were not driven above - the Alpha / PreAlpha
+// wrapper forms of the operators, arithmetic and conversions (alpha/alpha.rs, blend/pre_alpha.rs), the three hue types no operation used
+// (`make_hues!` is instantiated five times), the Porter-Duff operators inside / outside / atop on colours with alpha, and CAM16 under a second
+// set of viewing conditions.  Called after `run_more` (the random stream and the clauses above are unchanged); every `more4!` also runs the lane
+// patterns and the f32-vs-f64 comparison of c17_more2.rs.
+// ------------------------------------------------------------------------------------------------------------------
+trait Bk2: FromScalar { fn baked2() -> BakedParameters<StaticWp<D65>, Self::Scalar>; }
+macro_rules! bk2 { ($($t:ty => $s:ty),*) => { $(impl Bk2 for $t { fn baked2() -> BakedParameters<StaticWp<D65>, $s> {
+    let mut p = Parameters::<StaticWp<D65>, $s>::default_static_wp(100.0); p.surround = palette::cam16::Surround::Dim; p.discounting = palette::cam16::Discounting::Custom(0.8); p.background_luminance = 0.3; p.bake() } })* } }
+bk2!(f32 => f32, f64 => f64, f32x4 => f32, f32x8 => f32, f64x2 => f64, f64x4 => f64);
+fn bk2<X: Bk2>(_: &X) -> BakedParameters<StaticWp<D65>, X::Scalar> { X::baked2() }
+fn v4<C: ArrayCast<Array = [X; 3]>, X>(c: Alpha<C, X>) -> Vec<X> { let a: [X; 3] = cast::into_array(c.color); let [p, q, r] = a; vec![p, q, r, c.alpha] }
+
+pub fn run_more_audit(out: &mut Out, rng: &mut Rng, _thorough: bool, ng: usize, pools: &BTreeMap<&'static str, Vec<[f64; 3]>>) {
+    let nq = ng / 4;
+    let no = E;
+    let mut pools = pools.clone();
+    { let w = widen(&pools["Hsl"], rng); pools.insert("W:Hsl", w); }
+    let pools = &pools;
+    // ---- the other hue types (same body as `hue-type:LabHue,RgbHue`)
+    macro_rules! huetype { ($name:expr, $h:ident) => {
+        more4!(out, pools, rng, nq, "Lch", concat!("hue-type:", $name), [E, E, A(16.0), A(16.0), A(360.0), A(1.0), A(1.0), Hc(10), E, E, E], no, false, (-800.0, 800.0), |a, b, p| {
+            let h = palette::hues::$h::from(a[2] + p); let (c, s) = h.into_cartesian();
+            (vec![h.into_degrees(), h.into_positive_degrees(), h.into_radians(), h.into_positive_radians(), palette::hues::$h::from_radians(a[0] - b[0]).into_raw_degrees(), c, s,
+                  palette::hues::$h::from_cartesian(a[1] - b[1], b[0] - a[0]).into_raw_degrees(), (h + palette::hues::$h::from(b[2])).into_raw_degrees(), (h - b[2]).into_raw_degrees(),
+                  Abs::abs(a[1] - b[1]) + Abs::abs(b[0] - a[0])], vec![]) });
+    } }
+    huetype!("LuvHue", LuvHue); huetype!("OklabHue", OklabHue); huetype!("Cam16Hue", Cam16Hue); huetype!("RgbHue", RgbHue);
+
+    // ---- Alpha<C, T>: operators forwarded with the alpha (own impls in alpha/alpha.rs); per-lane alpha = the parameter
+    more4!(out, pools, rng, nq, "Hsv", "alpha-forms:operators:Hsv", [E; 28], no, false, (-1.0, 1.0), |a, b, p| {
+        let x = Alpha { color: col::<HsvS<_>, _>(a), alpha: Abs::abs(p) }; let y = Alpha { color: col::<HsvS<_>, _>(b), alpha: b[1] };
+        let (mut l, mut s, mut h) = (x, x, x); l.lighten_assign(p); s.saturate_fixed_assign(p); h.shift_hue_assign(mulk(p, 400.0));
+        (cat(vec![v4(Lighten::lighten(x, p)), v4(x.darken_fixed(p)), v4(x.saturate(p)), v4(x.shift_hue(mulk(p, 400.0))), v4(l), v4(s), v4(h)]), vec![]) });
+    more4!(out, pools, rng, nq, "Lch", "alpha-forms:mix+hue:Lch", [E; 13], no, false, (-0.5, 1.5), |a, b, p| {
+        let x = Alpha { color: col::<LchD<_>, _>(a), alpha: a[1] }; let y = Alpha { color: col::<LchD<_>, _>(b), alpha: b[1] }; let mut z = x; z.mix_assign(y, p); let mut t = x; t.set_hue(y.get_hue());
+        (cat(vec![v4(x.mix(y, p)), v4(z), v4(x.with_hue(y.get_hue())), vec![t.get_hue().into_raw_degrees()]]), vec![]) });
+    more4!(out, pools, rng, nq, "Lab", "alpha-forms:arithmetic:Lab", [E; 48], no, false, (0.25, 2.0), |a, b, p| {
+        let x = Alpha { color: col::<LabD<_>, _>(a), alpha: a[0] }; let y = Alpha { color: col::<LabD<_>, _>(b), alpha: b[0] }; let (mut c1, mut c2, mut c3, mut c4) = (x, x, x, x); c1 += y; c2 -= p; c3 *= y; c4 /= p;
+        (cat(vec![v4(x + y), v4(x - y), v4(x * y), v4(x / y), v4(x + p), v4(x - p), v4(x * p), v4(x / p), v4(c1), v4(c2), v4(c3), v4(c4)]), vec![]) });
+    more4!(out, pools, rng, nq, "W:Hsl", "alpha-forms:bounds+clamp:Hsl", [E; 8], no, false, (-0.5, 1.5), |a, _b, p| {
+        let x = Alpha { color: col::<HslS<_>, _>(a), alpha: p }; let c = x.clamp(); let mut y = x; y.clamp_assign();
+        (cat(vec![v4(c), v4(y)]), vec![(x.is_within_bounds(), p)]) });
+    // conversions with alpha on both sides / added / dropped (alpha.rs: FromColorUnclamped<C1> for Alpha<C2, T>)
+    more4!(out, pools, rng, nq, "Rgb", "alpha-forms:convert:Rgb->Hsv", [H, E, E, E, H, E, E], no, false, (0.0, 1.0), |a, _b, p| {
+        let x = Alpha { color: col::<RgbS<_>, _>(a), alpha: p }; let y: Alpha<HsvS<_>, _> = x.into_color_unclamped();
+        let w: HsvS<_> = x.into_color_unclamped();
+        (cat(vec![v4(y), v3(w)]), vec![]) });
+    // ---- PreAlpha<C>: arithmetic, mix, conversion from / into Alpha (blend/pre_alpha.rs)
+    more4!(out, pools, rng, nq, "RgbL", "prealpha-forms:RgbL", [E; 32], no, false, (0.0, 1.0), |a, b, p| {
+        let x = PreAlpha { color: col::<RgbL<_>, _>(a), alpha: p }; let y = PreAlpha { color: col::<RgbL<_>, _>(b), alpha: b[0] };
+        let v4p = |c: PreAlpha<RgbL<_>>| { let mut v = v3(c.color); v.push(c.alpha); v };
+        let mut z = x; z.mix_assign(y, a[1]);
+        let fa: PreAlpha<RgbL<_>> = Alpha { color: col::<RgbL<_>, _>(a), alpha: p }.into(); let ua: Alpha<RgbL<_>, _> = x.into();
+        (cat(vec![v4p(x + y), v4p(x - y), v4p(x * y), v4p(x / y), v4p(x.mix(y, a[1])), v4p(z), v4p(fa), v4(ua)]), vec![]) });
+    // ---- Porter-Duff operators never driven for the SIMD types (inside, outside, atop; with alpha), BlendWith
+    more4!(out, pools, rng, nq, "RgbL", "compose(inside,outside,atop,xor,plus)+blend_with:alpha:RgbL", [E; 24], no, false, (0.0, 1.0), |a, b, p| {
+        use palette::blend::{BlendWith, Compose};
+        let x = Alpha { color: col::<RgbL<_>, _>(a), alpha: p }; let y = Alpha { color: col::<RgbL<_>, _>(b), alpha: b[1] };
+        let bw = x.blend_with(y, |s: PreAlpha<RgbL<_>>, d: PreAlpha<RgbL<_>>| PreAlpha { color: s.color * d.color, alpha: s.alpha * d.alpha });
+        (cat(vec![v4(x.inside(y)), v4(x.outside(y)), v4(x.atop(y)), v4(x.xor(y)), v4(x.plus(y)), v4(bw)]), vec![]) });
+    // ---- CAM16 under other viewing conditions (dim surround, custom discounting, other luminances), both directions
+    more4!(out, pools, rng, nq, "Xyz", "cam16(dim surround, custom discounting):Xyz->Cam16->Xyz", [A(100.0), A(100.0), Hc(1), A(100.0), A(100.0), A(100.0), A(1.0), A(1.0), A(1.0)], no, true, (0.0, 1.0), |a, _b, _p| {
+        let x: XyzD<_> = col(a); let c = Cam16::from_xyz(x, bk2(&a[0]));
+        (vec![c.lightness, c.chroma, c.hue.into_raw_degrees(), c.brightness, c.colorfulness, c.saturation].into_iter().chain(v3(Cam16Jch::from(c).into_xyz(bk2(&a[0])))).collect(), vec![]) });
 }
